@@ -33,10 +33,11 @@
 //                                   arithmetic through `format!`, rule R4 -- stays unspecified): the pushed entry is what the part declares by the
 //                                   ECMA-376 18.5.1 walk `tb_scan`: displayName, ref (decoded by get_dimension), headerRowCount default 1,
 //                                   totalsRowCount default 0 (attribute named exactly so), insertRow, the tableColumn captions in document order;
-//                                   it is attributed to the sheet whose relationships are being read.  Proved under `tb_plain` (no XML reference
-//                                   in the text attributes; insertRow not spelled "false"); the two bridge lemmas to the property fail
-//                                   (findings 1, 2).  Frame, loaded-or-unchanged, header / totals arithmetic, C06: as in unit xlsxwb (same
-//                                   directive text; the same four C06 obligations fail here under this unit's name: finding 3).
+//                                   it is attributed to the sheet whose relationships are being read.  Proved for every table part the walk
+//                                   covers (attribute VALUES: references resolved, insertRow an xsd:boolean).  Frame, loaded-or-unchanged,
+//                                   header / totals arithmetic, C06 (checked row arithmetic, `../` target without parent folder => Err): as in
+//                                   unit xlsxwb (same directive text).  (Raw attribute bytes, `insertRow != "0"`, unchecked arithmetic and the
+//                                   `expect`: fixed findings, see findings/xlsxparts.json.)
 //   InnerTableMetadata::new         C17 defaults (1 header row, no totals row, no insert row, empty texts)
 //   Xlsx::table_names, table_names_in_sheet
 //                                   C17 all loaded names in order / those recorded under exactly this sheet name, in order
@@ -2215,6 +2216,13 @@ pub assume_specification<P: std::str::pattern::Pattern>[ str::rfind ](s: &str, p
 // TRUSTED: A-std -- `&s[..n]` at a character boundary does not panic
 pub broadcast axiom fn axiom_str_index_req_to(s: &str, r: std::ops::RangeTo<usize>)
     ensures vstd::utf8::is_char_boundary(vstd::utf8::encode_utf8(s@), r.end as int) ==> #[trigger] <str as IndexSpec<std::ops::RangeTo<usize>>>::index_req(s, &r);
+// TRUSTED: A-std -- `<[T]>::contains`: "Returns true if the slice contains an element with the given value" (`peq`: PartialEq of T;
+// for &str: same characters)
+pub uninterp spec fn peq<T>(a: T, b: T) -> bool;
+pub broadcast axiom fn axiom_peq_str(a: &str, b: &str)
+    ensures #[trigger] peq::<&str>(a, b) == (a@ == b@);
+pub assume_specification<T: PartialEq>[ <[T]>::contains ](s: &[T], x: &T) -> (r: bool)
+    ensures r == exists|i: int| 0 <= i < s@.len() && peq(#[trigger] s@[i], *x);
 // ---------------------------------------------------------------------------------------------------------------------
 // C17: what a table part declares.  ECMA-376 Part 1, 18.5.1.2 table (CT_Table): attributes displayName (required), ref (required,
 // ST_Ref: the whole table including header and totals rows), headerRowCount (xsd:unsignedInt, default 1), insertRow (xsd:boolean,
@@ -2231,14 +2239,12 @@ pub broadcast axiom fn axiom_str_index_req_to(s: &str, r: std::ops::RangeTo<usiz
 #[verifier::opaque] pub open spec fn k_insertrow() -> Seq<u8> { seq![0x69u8, 0x6eu8, 0x73u8, 0x65u8, 0x72u8, 0x74u8, 0x52u8, 0x6fu8, 0x77u8] }   // insertRow
 #[verifier::opaque] pub open spec fn k_totcount() -> Seq<u8> { seq![0x74u8, 0x6fu8, 0x74u8, 0x61u8, 0x6cu8, 0x73u8, 0x52u8, 0x6fu8, 0x77u8, 0x43u8, 0x6fu8, 0x75u8, 0x6eu8, 0x74u8] }   // totalsRowCount
 #[verifier::opaque] pub open spec fn k_name() -> Seq<u8> { seq![0x6eu8, 0x61u8, 0x6du8, 0x65u8] }   // name
-pub open spec fn b_zero() -> Seq<u8> { seq![0x30u8] }   // "0"
 // TRUSTED: A-lit (see axiom_bytelits)
 #[verifier::external_body]
 pub proof fn axiom_bytelits_tbl()
     ensures
         b"table"@ == n_table(), b"tableColumn"@ == n_tablecolumn(), b"displayName"@ == k_displayname(), b"ref"@ == k_ref(),
         b"headerRowCount"@ == k_hdrcount(), b"insertRow"@ == k_insertrow(), b"totalsRowCount"@ == k_totcount(), b"name"@ == k_name(),
-        b"0"@ == b_zero(),
 {}
 proof fn lemma_tbl_names_distinct()
     ensures
@@ -2364,36 +2370,6 @@ pub open spec fn strs(v: Seq<String>) -> Seq<Seq<char>> { v.map_values(|s: Strin
 spec fn meta_is(t: InnerTableMetadata, m: TbMeta) -> bool {
     t.display_name@ == m.name && t.ref_cells@ == m.refc && t.header_row_count == m.hdr && t.insert_row == m.ins && t.totals_row_count == m.tot
 }
-/// the attribute is one of those whose VALUE the table reader uses as text
-pub open spec fn tb_text_key(key: Seq<u8>) -> bool {
-    key == k_displayname() || key == k_ref() || key == k_hdrcount() || key == k_totcount() || key == k_name()
-}
-/// (hypotheses of the clause that holds for the code as it stands) no text attribute of the table part contains an XML reference, and
-/// insertRow is written "0" or "1" / "true"
-pub open spec fn tb_plain(ev: Seq<Ev>) -> bool {
-    forall|k: int, j: int| 0 <= k < ev.len() && 0 <= j < (#[trigger] ev[k]).attrs.len() ==>
-        (tb_text_key((#[trigger] ev[k].attrs[j]).key) ==> dec(ev[k].attrs[j].raw) == unesc(ev[k].attrs[j].raw))
-        && (ev[k].attrs[j].key == k_insertrow() && unesc(ev[k].attrs[j].raw) is Some && xsd_bool(unesc(ev[k].attrs[j].raw)->Some_0) is Some
-                ==> xsd_bool(unesc(ev[k].attrs[j].raw)->Some_0) == Some(ev[k].attrs[j].raw != b_zero()))
-}
-
-//@@ props C17
-/// BRIDGE between the property and the first hypothesis of `tb_plain`: the clause C17.table_entry_is_the_declared_table is proved for the
-/// code's `xml.decoder().decode(raw)`; it carries over to every table part iff decoding the raw bytes of displayName / ref / headerRowCount /
-/// totalsRowCount / tableColumn@name already yields the attribute VALUE.  It does not: `name="P&amp;L"` (demonstration: findings/xlsxparts_3.rs).
-proof fn lemma_table_text_attribute_is_unescaped(a: Attr)
-    requires a.ok, tb_text_key(a.key),
-    ensures dec(a.raw) == unesc(a.raw),
-{
-}
-/// BRIDGE to the second hypothesis of `tb_plain`: the code reads insertRow as `raw != "0"`; the attribute is an xsd:boolean whose
-/// lexical forms are "true" | "false" | "1" | "0".  `insertRow="false"` is read as true (demonstration: findings/xlsxparts_4.rs).
-proof fn lemma_insert_row_is_read_as_xsd_boolean(a: Attr)
-    requires a.ok, a.key == k_insertrow(), unesc(a.raw) is Some, xsd_bool(unesc(a.raw)->Some_0) is Some,
-    ensures xsd_bool(unesc(a.raw)->Some_0) == Some(a.raw != b_zero()),
-{
-}
-//@@ props C10,C17,C01,C16,C06
 /// witness: <table displayName=N ref=R><tableColumns><tableColumn name=C/></tableColumns></table> declares (N, R, defaults, [C])
 proof fn witness_tb_part(ns: Seq<u8>, n_raw: Seq<u8>, n: Seq<char>, r_raw: Seq<u8>, r: Seq<char>, c_raw: Seq<u8>, c: Seq<char>, d: Dimensions)
     requires is_main_ns(ns), unesc(n_raw) == Some(n), unesc(r_raw) == Some(r), unesc(c_raw) == Some(c), dim_of(vstd::utf8::encode_utf8(r)) == Some(d),
@@ -2448,30 +2424,30 @@ proof fn witness_tb_part(ns: Seq<u8>, n_raw: Seq<u8>, n: Seq<char>, r_raw: Seq<u
         //# C17.tables_loaded_or_unchanged
         r is Ok ==> final(self).tables is Some,
         r is Err ==> final(self).tables == old(self).tables,
-//@@ replace /Attribute \{\s*key: QName\((b"[^"]*")\),\s*value: v,\s*\}\s*=>/#0of8 Verus crashes on byte-string literal patterns: the slice is bound and compared in a guard (same test, same arm order); the literal is kept verbatim
-Attribute { key: QName(__k), value: v } if __k == \g<1> =>
-//@@ replace /Attribute \{\s*key: QName\((b"[^"]*")\),\s*value: v,\s*\}\s*=>/#1of8 (same)
-Attribute { key: QName(__k), value: v } if __k == \g<1> =>
-//@@ replace /Attribute \{\s*key: QName\((b"[^"]*")\),\s*value: v,\s*\}\s*=>/#2of8 (same)
-Attribute { key: QName(__k), value: v } if __k == \g<1> =>
-//@@ replace /Attribute \{\s*key: QName\((b"[^"]*")\),\s*value: v,\s*\}\s*=>/#3of8 (same)
-Attribute { key: QName(__k), value: v } if __k == \g<1> =>
-//@@ replace /Attribute \{\s*key: QName\((b"[^"]*")\),\s*value: v,\s*\}\s*=>/#4of8 (same)
-Attribute { key: QName(__k), value: v } if __k == \g<1> =>
-//@@ replace /Attribute \{\s*key: QName\((b"[^"]*")\),\s*value: v,\s*\}\s*=>/#5of8 (same)
-Attribute { key: QName(__k), value: v } if __k == \g<1> =>
-//@@ replace /Attribute \{\s*key: QName\((b"[^"]*")\),\s*value: v,\s*\}\s*=>/#6of8 (same)
-Attribute { key: QName(__k), value: v } if __k == \g<1> =>
-//@@ replace /Attribute \{\s*key: QName\((b"[^"]*")\),\s*value: v,\s*\}\s*=>/#7of8 (same)
-Attribute { key: QName(__k), value: v } if __k == \g<1> =>
-//@@ replace /if let Attribute \{\s*key: QName\((b"[^"]*")\),\s*value: v,\s*\} = a\s*\{([^{}]*)\}/ Verus crashes on byte-string literal patterns: the slice is bound by the `if let` and compared in a nested `if` (same test); literal and body kept verbatim
-if let Attribute { key: QName(__k), value: v } = a { if __k == \g<1> {\g<2>} }
+//@@ replace /(a @ )?Attribute \{\s*key: QName\((b"[^"]*")\),\s*(value: v|\.\.),?\s*\}\s*=>/#0of8 Verus crashes on byte-string literal patterns: the slice is bound and compared in a guard (same test, same arm order); the literal, the other field pattern and a binding of the whole attribute are kept verbatim
+\g<1>Attribute { key: QName(__k), \g<3> } if __k == \g<2> =>
+//@@ replace /(a @ )?Attribute \{\s*key: QName\((b"[^"]*")\),\s*(value: v|\.\.),?\s*\}\s*=>/#1of8 (same)
+\g<1>Attribute { key: QName(__k), \g<3> } if __k == \g<2> =>
+//@@ replace /(a @ )?Attribute \{\s*key: QName\((b"[^"]*")\),\s*(value: v|\.\.),?\s*\}\s*=>/#2of8 (same)
+\g<1>Attribute { key: QName(__k), \g<3> } if __k == \g<2> =>
+//@@ replace /(a @ )?Attribute \{\s*key: QName\((b"[^"]*")\),\s*(value: v|\.\.),?\s*\}\s*=>/#3of8 (same)
+\g<1>Attribute { key: QName(__k), \g<3> } if __k == \g<2> =>
+//@@ replace /(a @ )?Attribute \{\s*key: QName\((b"[^"]*")\),\s*(value: v|\.\.),?\s*\}\s*=>/#4of8 (same)
+\g<1>Attribute { key: QName(__k), \g<3> } if __k == \g<2> =>
+//@@ replace /(a @ )?Attribute \{\s*key: QName\((b"[^"]*")\),\s*(value: v|\.\.),?\s*\}\s*=>/#5of8 (same)
+\g<1>Attribute { key: QName(__k), \g<3> } if __k == \g<2> =>
+//@@ replace /(a @ )?Attribute \{\s*key: QName\((b"[^"]*")\),\s*(value: v|\.\.),?\s*\}\s*=>/#6of8 (same)
+\g<1>Attribute { key: QName(__k), \g<3> } if __k == \g<2> =>
+//@@ replace /(a @ )?Attribute \{\s*key: QName\((b"[^"]*")\),\s*(value: v|\.\.),?\s*\}\s*=>/#7of8 (same)
+\g<1>Attribute { key: QName(__k), \g<3> } if __k == \g<2> =>
+//@@ replace /if let Attribute \{\s*key: QName\((b"[^"]*")\),\s*(value: v|\.\.),?\s*\} = a\s*\{([^{}]*)\}/ Verus crashes on byte-string literal patterns: the slice is bound by the `if let` and compared in a nested `if` (same test); literal, the other field pattern and body kept verbatim
+if let Attribute { key: QName(__k), \g<2> } = a { if __k == \g<1> {\g<3>} }
 //@@ replace /a\.map_err\((XlsxError::XmlAttr)\)\?/#0of2 Verus: "using a datatype constructor as a function value" unsupported; eta-expanded, same function
 a.map_err(|e| -> (x: XlsxError) ensures x == \g<1>(e) { \g<1>(e) })?
 //@@ replace /a\.map_err\((XlsxError::XmlAttr)\)\?/#1of2 (same)
 a.map_err(|e| -> (x: XlsxError) ensures x == \g<1>(e) { \g<1>(e) })?
 //@@ body
-        broadcast use {axiom_cow_str_owned, axiom_str_index_req_to, axiom_str_index_req_from, axiom_str_index_from, axiom_pat_chars_str, axiom_iter_rem, axiom_into_rem, axiom_pat_occurs_char, lemma_bytes_eq_array, lemma_bytes_eq_slice, lemma_subrange_full};
+        broadcast use {axiom_cow_str_owned, axiom_str_index_req_to, axiom_str_index_req_from, axiom_str_index_from, axiom_pat_chars_str, axiom_iter_rem, axiom_into_rem, axiom_pat_occurs_char, axiom_peq_str, lemma_bytes_eq_array, lemma_bytes_eq_slice, lemma_subrange_full};
         proof { reveal_strlit("xl/"); }
 //@@ r6 0 iter /&self\.sheets/ `<&Vec<T> as IntoIterator>::into_iter` is `iter()` (vstd specifies the latter)
 self.sheets.iter()
@@ -2497,7 +2473,7 @@ self.sheets.iter()
 //@@ before /let mut column_names = Vec::new\(\);/
                 let ghost tev = xml.events();
                 let ghost ttot = tb_part(tev);
-                let ghost tgood = ttot.ok && tb_plain(tev) && xml.pos() == 0;
+                let ghost tgood = ttot.ok && xml.pos() == 0;
                 let ghost mut tst = tb_init();
                 proof { axiom_bytelits_tbl(); lemma_tbl_names_distinct(); }
 //@@ after /let mut table_meta = InnerTableMetadata::new\(\);/
@@ -2555,13 +2531,11 @@ self.sheets.iter()
                                         lemma_tb_fold_prefix(at, k + 1, at.len() as int);
                                         assert(at[k].ok);
                                         let m = tb_fold(at, k)->Some_0;
-                                        if tb_text_key(at[k].key) { assert(dec(at[k].raw) == unesc(at[k].raw)); }
                                         if at[k].key == k_displayname() { assert(tb_fold(at, k + 1) == Some(TbMeta { name: unesc(at[k].raw)->Some_0, ..m })); }
                                         else if at[k].key == k_ref() { assert(tb_fold(at, k + 1) == Some(TbMeta { refc: unesc(at[k].raw)->Some_0, ..m })); }
                                         else if at[k].key == k_hdrcount() { assert(tb_fold(at, k + 1) == Some(TbMeta { hdr: xsd_u32(unesc(at[k].raw)->Some_0)->Some_0, ..m })); }
                                         else if at[k].key == k_insertrow() {
                                             assert(tb_fold(at, k + 1) == Some(TbMeta { ins: xsd_bool(unesc(at[k].raw)->Some_0)->Some_0, ..m }));
-                                            assert(xsd_bool(unesc(at[k].raw)->Some_0) == Some(at[k].raw != b_zero()));
                                         }
                                         else if at[k].key == k_totcount() { assert(tb_fold(at, k + 1) == Some(TbMeta { tot: xsd_u32(unesc(at[k].raw)->Some_0)->Some_0, ..m })); }
                                         else { assert(tb_fold(at, k + 1) == Some(m)); }
@@ -2592,7 +2566,6 @@ self.sheets.iter()
                                         if cat[i].key == k_name() {
                                             if i < kx { assert(false); }
                                             if kx < i { assert(cat[kx].key != cat[i].key); assert(false); }
-                                            assert(dec(cat[i].raw) == unesc(cat[i].raw));
                                         }
                                     }
                                 }
